@@ -651,7 +651,10 @@ class Message:
                 self.tsig.add(new_tsig)
                 if multi:
                     self.tsig_ctx = ctx
-            r.add_rrset(dns.renderer.ADDITIONAL, self.tsig)
+            # Use the renderer's TSIG writer: it does not compress the TSIG owner
+            # name when the message was padded, which is what the padding
+            # computation (uncompressed TSIG size) assumed.
+            r._write_tsig(self.tsig[0], self.tsig.name)
             r.write_header()
         wire = r.get_wire()
         self.wire = wire
